@@ -3,7 +3,7 @@ import StepModel.GenPy
 what the property asks for.  Input: schemas as blocks of lines
 
     schema NAME
-    type NAME simple PY | boolean | defined REF | enum I1 I2 … | select M1 M2 … | aggregate KIND LO HI|? BASE
+    type NAME simple PY | boolean | defined REF | enum I1 I2 … | select M1 M2 … | aggregate KIND LO HI|? [KIND LO HI|? …] BASE
     entity NAME S1,S2|- A1:k,A2:k|-          (k = e explicit, o optional, d derived, i inverse)
     end
 
@@ -21,25 +21,43 @@ def parseAttrs (owner : String) (s : String) : Option (List Attr) :=
     | [n, k] => (parseKindC k).map (fun k => { owner, name := n, kind := k })
     | _ => none)
 
+/-- `KIND LO HI|? KIND LO HI … BASE` -/
+def parseAgg : List String → Option AggT
+  | [k, lo, hi, b] => do
+    let lo ← lo.toInt?
+    let hi ← if hi = "?" then some none else hi.toInt?.map some
+    pure (.agg k lo hi (.leaf b))
+  | k :: lo :: hi :: rest => do
+    let lo ← lo.toInt?
+    let hi ← if hi = "?" then some none else hi.toInt?.map some
+    let inner ← parseAgg rest
+    pure (.agg k lo hi inner)
+  | _ => none
+
+/-- `@` marks the level that carries `scope=` (model mode only) -/
+def showAgg (withScope : Bool) : AggT → String
+  | .leaf b => b
+  | .agg k lo hi (.leaf b) =>
+    s!"{k},{lo}," ++ (match hi with | some h => toString h | none => "?") ++ "," ++ (if withScope then "@" else "") ++ b
+  | .agg k lo hi i =>
+    s!"{k},{lo}," ++ (match hi with | some h => toString h | none => "?") ++ ",[" ++ showAgg withScope i ++ "]"
+
 def parseType : List String → Option TypeDef
   | [n, "simple", py] => some ⟨n, .simple py⟩
   | [n, "boolean"] => some ⟨n, .boolean⟩
   | [n, "defined", r] => some ⟨n, .defined r⟩
   | n :: "enum" :: items => some ⟨n, .enum items⟩
   | n :: "select" :: ms => some ⟨n, .select ms⟩
-  | [n, "aggregate", k, lo, hi, b] => do
-    let lo ← lo.toInt?
-    let hi ← if hi = "?" then some none else hi.toInt?.map some
-    pure ⟨n, .aggregate k lo hi b⟩
+  | n :: "aggregate" :: rest => (parseAgg rest).map (fun a => ⟨n, .aggregate a⟩)
   | _ => none
 
-def showBody : TBody → String
+def showBody (withScope : Bool) : TBody → String
   | .simple py => s!"simple:{py}"
   | .boolean => "boolean"
   | .defined r => s!"defined:{r}"
   | .enum items => "enum:" ++ joinOr items "-"
   | .select ms => "select:" ++ joinOr ms "-"
-  | .aggregate k lo hi b => s!"aggregate:{k},{lo}," ++ (match hi with | some h => toString h | none => "?") ++ s!",{b}"
+  | .aggregate a => "aggregate:" ++ showAgg withScope a
 
 def showClass (c : PyClass) : String :=
   s!"class {c.name} bases={joinOr c.bases "-"} ctor=" ++ (match c.ctor with | some ps => joinOr ps "-" | none => "!")
@@ -48,12 +66,12 @@ def render (useSpec : Bool) (s : Schema) : String :=
   if useSpec then
     " | ".intercalate (
       s.entities.map (fun e => s!"class {e.name} bases={joinOr e.supers "-"} ctorattrs={joinOr (Spec.ctorAttrNames s.entities e) "-"}")
-      ++ s.types.map (fun t => s!"type {t.name}={showBody t.body}"))
+      ++ s.types.map (fun t => s!"type {t.name}={showBody false t.body}"))
   else
     let m := moduleOf s
     " | ".intercalate ([s!"pkg={m.package}"] ++ m.classes.map showClass
       ++ (s.entities.map (fun e => s!"attrs {pyName e.name}={joinOr (ctorAttrNames s.entities e) "-"}"))
-      ++ m.types.map (fun t => s!"type {t.name}={showBody t.body}"))
+      ++ m.types.map (fun t => s!"type {t.name}={showBody true t.body}"))
 
 partial def loop (useSpec : Bool) (h : IO.FS.Stream) (out : IO.FS.Stream) (cur : Option Schema) (bad : Bool) : IO Unit := do
   let line ← h.getLine
